@@ -777,6 +777,9 @@ impl<Aux> Vm<'_, Aux> {
         let mut instr_ptr = 0;
         let result = self._run(&mut instr_ptr);
         self.runtime_data.current_program = std::ptr::null();
+        // the program ends with Exit, which does not return: drop the entry frame (and whatever an
+        // aborted run left behind) so that runs do not accumulate call frames
+        self.runtime_data.call_stack.clear();
         result
     }
 
